@@ -177,6 +177,15 @@ pub fn check_variant(v: &Variant) -> Vec<(String, String)> {
                 if r(&back) != want {
                     out.push((format!("bincode-de|{}|value", tyname), format!("bincode: {} came back as {}", want.chars().take(120).collect::<String>(), r(&back).chars().take(120).collect::<String>())));
                 }
+                // the same bytes through an io::Read (the deserializer cannot lend borrowed data)
+                match bincode::deserialize_from::<_, Variant>(std::io::Cursor::new(&bytes)) {
+                    Err(e) => out.push((format!("bincode-de-reader|{}|err", tyname), format!("bincode::deserialize_from (a reader) fails on bytes bincode::deserialize (a slice) accepts: {}", e))),
+                    Ok(b2) => {
+                        if r(&b2) != want {
+                            out.push((format!("bincode-de-reader|{}|value", tyname), format!("bincode from a reader: {} came back as {}", want.chars().take(120).collect::<String>(), r(&b2).chars().take(120).collect::<String>())));
+                        }
+                    }
+                }
             }
         },
     }
@@ -189,6 +198,14 @@ pub fn check_variant(v: &Variant) -> Vec<(String, String)> {
                 Ok(back) => {
                     if r(&back) != want {
                         out.push((format!("{}-de|{}|value", nm, tyname), format!("{}: {} came back as {}", nm, want.chars().take(120).collect::<String>(), r(&back).chars().take(120).collect::<String>())));
+                    }
+                    match rmp_serde::from_read::<_, Variant>(std::io::Cursor::new(&bytes)) {
+                        Err(e) => out.push((format!("{}-de-reader|{}|err", nm, tyname), format!("{} from_read (a reader) fails on bytes from_slice accepts: {}", nm, e))),
+                        Ok(b2) => {
+                            if r(&b2) != want {
+                                out.push((format!("{}-de-reader|{}|value", nm, tyname), format!("{} from a reader: {} came back as {}", nm, want.chars().take(120).collect::<String>(), r(&b2).chars().take(120).collect::<String>())));
+                            }
+                        }
                     }
                 }
             },
